@@ -90,3 +90,60 @@ fn ob_spec_byte_dist() {
     assert!(d <= 24, "spec.byte_dist.max_6_per_dibit");
     kani::cover!(d == 24, "maximum attained (0x00 vs 0xff)");
 }
+
+// ---- name-independent probes of every compiled back end through its `pub` entry points only
+// (they keep working when a back end's private kernel is renamed or restructured, in which case
+// the modular obligations of that back end lose their anchor): extreme pair, equal pair, and one
+// differing byte pair at a symbolic position over a symbolic uniform background.
+fn probe<const B: usize>(f: &dyn Fn(&[u8; B], &[u8; B]) -> u32) {
+    let zeros = [0u8; B];
+    let ones = [0xffu8; B];
+    assert!(f(&zeros, &ones) == 24 * B as u32, "backend.probe.maximum_distance_is_6_per_dibit");
+    assert!(f(&ones, &zeros) == 24 * B as u32, "backend.probe.maximum_distance_symmetric");
+    let c: u8 = kani::any();
+    let (x, y): (u8, u8) = kani::any();
+    let p: usize = kani::any();
+    kani::assume(p < B);
+    let mut a = [c; B];
+    let mut b = [c; B];
+    assert!(f(&a, &b) == 0, "backend.probe.equal_bodies_are_at_distance_0");
+    a[p] = x;
+    b[p] = y;
+    assert!(f(&a, &b) == ref_byte_dist(x, y), "backend.probe.one_differing_byte_anywhere");
+    // a full column of maximal differences next to equal bytes (sums above 255 per 32-bit column)
+    let mut h = [c; B];
+    let mut g = [c; B];
+    let mut i = 0;
+    while i < B { if i % 4 == 0 { h[i] = 0; g[i] = 0xff; } i += 1; }
+    assert!(f(&h, &g) == 24 * (B as u32 / 4), "backend.probe.one_byte_lane_maximal");
+}
+// @ob id=dist_body.probe.sse2_32 props=C02,C07,C08,C17 rows=simd kind=HC fn=compare::dist_body::x86_sse2::distance_32 domain="extreme pair, equal pair, one symbolic byte pair at every position over a symbolic uniform background, one maximal byte lane" bounded="structured probe inputs (the full-domain proof is x86_sse2.*.modular + packed.eq_ref)" allow=simd
+#[cfg(all(feature = "simd-per-arch", feature = "opt-simd-body-comparison"))]
+#[kani::proof]
+#[kani::unwind(66)]
+fn ob_probe_sse2_32() { probe::<32>(&|a, b| unsafe { super::x86_sse2::distance_32(a, b) }) }
+// @ob id=dist_body.probe.sse2_64 props=C02,C07,C08,C17 rows=simd kind=HC fn=compare::dist_body::x86_sse2::distance_64 domain="structured probe inputs" bounded="structured probe inputs" allow=simd
+#[cfg(all(feature = "simd-per-arch", feature = "opt-simd-body-comparison"))]
+#[kani::proof]
+#[kani::unwind(66)]
+fn ob_probe_sse2_64() { probe::<64>(&|a, b| unsafe { super::x86_sse2::distance_64(a, b) }) }
+// @ob id=dist_body.probe.sse4_1_32 props=C02,C07,C08,C17 rows=simd kind=HC fn=compare::dist_body::x86_sse4_1::distance_32 domain="structured probe inputs" bounded="structured probe inputs" allow=simd
+#[cfg(all(feature = "simd-per-arch", feature = "opt-simd-body-comparison"))]
+#[kani::proof]
+#[kani::unwind(66)]
+fn ob_probe_sse4_1_32() { probe::<32>(&|a, b| unsafe { super::x86_sse4_1::distance_32(a, b) }) }
+// @ob id=dist_body.probe.sse4_1_64 props=C02,C07,C08,C17 rows=simd kind=HC fn=compare::dist_body::x86_sse4_1::distance_64 domain="structured probe inputs" bounded="structured probe inputs" allow=simd
+#[cfg(all(feature = "simd-per-arch", feature = "opt-simd-body-comparison"))]
+#[kani::proof]
+#[kani::unwind(66)]
+fn ob_probe_sse4_1_64() { probe::<64>(&|a, b| unsafe { super::x86_sse4_1::distance_64(a, b) }) }
+// @ob id=dist_body.probe.avx2_32 props=C02,C07,C08,C17 rows=simd kind=HC fn=compare::dist_body::x86_avx2::distance_32 domain="structured probe inputs" bounded="structured probe inputs" allow=simd
+#[cfg(all(feature = "simd-per-arch", feature = "opt-simd-body-comparison"))]
+#[kani::proof]
+#[kani::unwind(66)]
+fn ob_probe_avx2_32() { probe::<32>(&|a, b| unsafe { super::x86_avx2::distance_32(a, b) }) }
+// @ob id=dist_body.probe.avx2_64 props=C02,C07,C08,C17 rows=simd kind=HC fn=compare::dist_body::x86_avx2::distance_64 domain="structured probe inputs" bounded="structured probe inputs" allow=simd
+#[cfg(all(feature = "simd-per-arch", feature = "opt-simd-body-comparison"))]
+#[kani::proof]
+#[kani::unwind(66)]
+fn ob_probe_avx2_64() { probe::<64>(&|a, b| unsafe { super::x86_avx2::distance_64(a, b) }) }
